@@ -349,3 +349,51 @@ m('c11-r6-helper-unclamped-caller', 'C11', 'C11-R6', 'f64_to_non_zero_u64', diff
 m('c11-r1-forwarder-without-retain', 'C11', 'C11-R1', 'difficulty_value', (
     'src/any/difficulty/skills.rs', "    peaks.retain_non_zero_and_sort();", "    peaks.sort_desc();"),
   diff='selftest/refactor_diffs/C11-r8.diff')
+
+# the key table of agent refactor C19-r11 (shared search helper fed a membership closure) with a wrong row
+m('c08-r1-closure-table-row', 'C08', 'C08-R1', 'mania_keys:', (
+    'src/model/mods.rs', "    (GameModIntermode::TwoKeys, 2.0),", "    (GameModIntermode::TwoKeys, 3.0),"),
+  diff='selftest/refactor_diffs/C19-r11.diff')
+# ... and with the intermode closure testing a fixed mod instead of the table's element
+m('c08-r1-closure-ignores-element', 'C08', 'C08-R1', 'mania_keys:Intermode', (
+    'src/model/mods.rs', "first_key_mod(|gamemod| mods.contains(gamemod))", "first_key_mod(|_gamemod| mods.contains(GameModIntermode::FourKeys))"),
+  diff='selftest/refactor_diffs/C19-r11.diff')
+# the paired push helper of agent refactor C06-r12 losing the sound push
+m('c06-r3-push-helper-no-sound', 'C06', 'C06-R3', 'push-pair', (
+    'src/model/beatmap/decode.rs', "        self.hit_objects.push(hit_object);\n        self.hit_sounds.push(sound);", "        self.hit_objects.push(hit_object);\n        let _ = sound;"),
+  diff='selftest/refactor_diffs/C06-r12.diff')
+# the sort helper of agent refactor C01-r12 permuting only the objects
+m('c06-r3-sort-helper-objects-only', 'C06', 'C06-R3', 'tandem-sort', (
+    'src/model/beatmap/decode.rs', "    sorter.sort(hit_objects);\n    sorter.sort(hit_sounds);", "    sorter.sort(hit_objects);\n    let _ = hit_sounds;"),
+  diff='selftest/refactor_diffs/C01-r12.diff')
+# the reflection helpers of agent refactor C08-r10: intermode arm asks for the wrong mod / lazer helper ties Vertical to Easy
+m('c08-r1-reflection-helper-wrong-mod', 'C08', 'C08-R1', 'reflection:Intermode', (
+    'src/model/mods.rs', "Reflection::of_hardrock(mods.contains(GameModIntermode::HardRock))", "Reflection::of_hardrock(mods.contains(GameModIntermode::Easy))"),
+  diff='selftest/refactor_diffs/C08-r10.diff')
+m('c08-r1-reflection-fn-value-wrong-kind', 'C08', 'C08-R1', 'reflection:Lazer', (
+    'src/model/mods.rs', "            GameMod::HardRockOsu(_) => Self::Vertical,", "            GameMod::EasyOsu(_) => Self::Vertical,"),
+  diff='selftest/refactor_diffs/C08-r10.diff')
+
+# seed C10-4 itself: len() asked after retain_non_zero_and_sort (compact count not maintained, raw body answers Vec::len())
+m('c10-r6-len-after-retain', 'C10', 'C10-R6', 'len-after-shrink', diff='selftest/seed_diffs/C10-4.diff')
+
+# seeds C08-4 / C18-4 themselves: a calculator configures the attribute builder around the .difficulty(..) funnel
+m('c08-r4-builder-bypasses-funnel', 'C08', 'C08-R4', 'funnel:', diff='selftest/seed_diffs/C08-4.diff')
+m('c18-r6-setter-before-funnel', 'C18', 'C18-R6', 'funnel-order:', diff='selftest/seed_diffs/C18-4.diff')
+# seed C15-4 itself: the container's process() (used by nth's bulk step only) skips skills under RX / AP, next() feeds them individually
+m('c15-r8-bulk-step-skips-skill', 'C15', 'C15-R8', 'osu:skills.', diff='selftest/seed_diffs/C15-4.diff')
+# seeds C02-4 / C03-4 themselves (catch): the shared conversion observes the counting mode / the gradual count narrows a shared counter
+m('c02-r6-conversion-observes-count-mode', 'C02', 'C02-R6', 'observer:is_done', diff='selftest/seed_diffs/C02-4.diff')
+m('c02-r7-gradual-counter-narrowed', 'C02', 'C02-R7', 'tiny_droplets', diff='selftest/seed_diffs/C03-4.diff')
+# seed C14-4 itself: the hold-note count is decided by `duration > 0.0` in a merged helper instead of by the object kind
+m('c14-r5-hold-by-duration', 'C14', 'C14-R5', 'mania:n_hold_notes', diff='selftest/seed_diffs/C14-4.diff')
+# seed C16-4 itself: a bulk zero-section shortcut in process() taken only when the skill's own peak has decayed to 0
+m('c16-r7-sections-depend-on-strain', 'C16', 'C16-R7', 'osu:Aim', diff='selftest/seed_diffs/C16-4.diff')
+# seed C19-4 itself: next_int_range = min + next_max(max) (span max instead of max - min)
+m('c19-r5-range-span', 'C19', 'C19-R5', 'range:next_int_range', diff='selftest/seed_diffs/C19-4.diff')
+# seed C05-4 itself: catch width computed from the signed scale (abs dropped): clamp(0.0, half_catcher_width) can see a negative upper bound
+m('c05-r4-clamp-upper-bound-signed', 'C05', 'C05-R4', 'clamp:catch::convert::initialize_hyper_dash', diff='selftest/seed_diffs/C05-4.diff')
+# seed C11-4 itself: the lifetime-extended difficulty objects also borrow a ScalingFactor that is a local of the constructor
+m('c11-r4-borrow-source-local', 'C11', 'C11-R4', 'borrow-source:create_difficulty_objects', diff='selftest/seed_diffs/C11-4.diff')
+# seed C07-4 itself: a map handed over by value is converted at construction time with GameMods::DEFAULT
+m('c07-r6-early-conversion-default-mods', 'C07', 'C07-R6', 'mods:any::performance::into::', diff='selftest/seed_diffs/C07-4.diff')
